@@ -17,11 +17,12 @@ const char *MC_RULE =
     "error return nothing is left allocated; every loop of a polygon outlines cells of one and the same component (owner of its first vertex) "
     "and per component the loops outlining it enclose the area of its cells. polar(origin,k,pattern): disks/rings/perforated disks around "
     "and next to the two pole cells (success not required): on an error return the ledger must be empty, on success destroy must empty "
-    "it. Non-trivial: set with a hole, several components or a pentagon.";
+    "it. bad(origin,k,kind,pos): a disk with one non-cell (digit 7, base cell 127, edge mode, 0, ~0, wrong resolution field, duplicate, high bit) "
+    "planted first / in the middle / last: same ledger-only oracle. Non-trivial: set with a hole, several components or a pentagon.";
 const char *MC_ASSUME[] = {"G_geo for components; ledger allocator through H3_ALLOC_PREFIX", NULL};
-const char *MC_CTR_NAMES[] = {"sets", "skipped_polar", "oracle_unavailable", "sets_with_holes", "multi_component_sets", "loops_checked", "polar_sets_error", "polar_sets_success", NULL};
+const char *MC_CTR_NAMES[] = {"sets", "skipped_polar", "oracle_unavailable", "sets_with_holes", "multi_component_sets", "loops_checked", "polar_sets_error", "polar_sets_success", "bad_sets_error", "bad_sets_success", NULL};
 const char *MC_MAX_NAMES[] = {"area_rel_diff", "vertex_offset_rad", NULL};
-enum { OP_SET, OP_POLAR };
+enum { OP_SET, OP_POLAR, OP_BAD };
 static OGraph G;
 static int G_init;
 #define MAXS 512
@@ -269,8 +270,50 @@ static void op_polar(const McArg *a) {
     destroyLinkedMultiPolygon(&out);
     if (lg_live || lg_errors) mc_fail("after destroyLinkedMultiPolygon %ld blocks remain allocated, %ld double/foreign frees (%d cells around a pole)", lg_live, lg_errors, ns);
 }
-const McOp MC_OPS[] = {{"set", "hii", op_set}, {"polar", "hii", op_polar}};
-const int MC_NOPS = 2;
+// bad(origin, k, kind, pos): a disk into which something that is not a cell of the set's resolution is planted at position pos (first,
+// middle, last): whatever the function returns, an error return must leave nothing allocated and a success must be destroyable
+static void op_bad(const McArg *a) {
+    uint64_t origin = a[0].u;
+    int k = (int)a[1].i, kind = (int)a[2].i, where = (int)a[3].i;
+    static uint64_t bc[4096];
+    static int bd[4096];
+    if (!G_init) og_init(&G, 1 << 16), G_init = 1;
+    int n = og_ball(&G, origin, k, bc, bd, 4096);
+    if (n < 2) return;
+    uint64_t set[MAXS];
+    int ns = 0;
+    for (int i = 0; i < n && ns < MAXS - 1; i++) set[ns++] = bc[i];
+    int pos = where == 0 ? 0 : where == 1 ? ns / 2 : ns - 1, res = spec_res(origin);
+    uint64_t bad = 0;
+    switch (kind) {
+        case 0: bad = spec_set_digit(set[pos], res ? res : 1, 7); break;          // digit 7 inside the resolution (res 0: digit 1 != 7)
+        case 1: bad = set[pos] | ((uint64_t)127 << 45); break;                     // base cell 127
+        case 2: bad = set[pos] ^ ((uint64_t)3 << 59); break;                       // an edge-mode index
+        case 3: bad = 0; break;                                                    // H3_NULL
+        case 4: bad = ~(uint64_t)0; break;
+        case 5: bad = res < 15 ? (set[pos] & ~((uint64_t)15 << 52)) | ((uint64_t)(res + 1) << 52) : set[pos]; break;  // resolution field off by one
+        case 6: bad = set[(pos + 1) % ns]; break;                                  // duplicate of another member
+        case 7: bad = set[pos] | ((uint64_t)1 << 63); break;                       // high bit
+    }
+    set[pos] = bad;
+    lg_reset();
+    lg_arm(0, 0, 0);
+    LinkedGeoPolygon out;
+    memset(&out, 0, sizeof out);
+    mc_trans(1);
+    H3Error e = cellsToLinkedMultiPolygon(set, ns, &out);
+    mc_ctr(e ? 8 : 9, 1);
+    if (e) {
+        mc_nontrivial();
+        if (lg_live || lg_errors)
+            mc_fail("cellsToLinkedMultiPolygon returned error %d for a set with a non-cell (%" PRIx64 ") at position %d of %d and left %ld blocks allocated (%ld bad frees)", e, bad, pos, ns, lg_live, lg_errors);
+        return;
+    }
+    destroyLinkedMultiPolygon(&out);
+    if (lg_live || lg_errors) mc_fail("after destroyLinkedMultiPolygon %ld blocks remain allocated, %ld double/foreign frees (set with %" PRIx64 " planted)", lg_live, lg_errors, bad);
+}
+const McOp MC_OPS[] = {{"set", "hii", op_set}, {"polar", "hii", op_polar}, {"bad", "hiii", op_bad}};
+const int MC_NOPS = 3;
 static U64Vec g_dom;
 static int g_kmax;
 static void ph_sets(void *u) {
@@ -289,6 +332,17 @@ static void ph_sets(void *u) {
                 MC_RUN(OP_SET, H(h), I(k), I(pat));
             }
     }
+}
+static void ph_bad(void *u) {
+    uint64_t idx = 0;
+    for (size_t i = 0; i < g_dom.n; i += (mc_thorough ? 11 : 53))
+        for (int k = 1; k <= 2; k++)
+            for (int kind = 0; kind < 8; kind++)
+                for (int w = 0; w < 3; w++, idx++) {
+                    if (!mc_mine(idx)) continue;
+                    if (mc_expired()) return;
+                    MC_RUN(OP_BAD, H(g_dom.v[i]), I(k), I(kind), I(w));
+                }
 }
 static void ph_polar(void *u) {
     uint64_t idx = 0;
@@ -324,5 +378,6 @@ int main(int argc, char **argv) {
     snprintf(mc_bounds, sizeof mc_bounds, "origins: FULL(0..1) + FINE level 2 (%s) at resolutions 2..15 = %zu origins; k<=%d (1 at res 0, 2 at res 1); 11 patterns (full, centre removed, island in hole, alternate, two disks, one neighbour removed, thick ring, scattered ring, nested donuts, nested donuts + isolated cells, triple nesting)", mc_thorough ? "all" : "every 5th", g_dom.n, g_kmax);
     mc_phase("set catalogue", ph_sets, NULL);
     mc_phase("sets around the poles (error clause)", ph_polar, NULL);
+    mc_phase("sets with a planted non-cell (error clause)", ph_bad, NULL);
     return mc_finish();
 }
